@@ -648,3 +648,34 @@ def canonical(repo, relpaths: Iterable[str], keep_names: Iterable[str] = ()):
                 raise AnalysisError("canonicalisation of %s failed: %s" % (rel, e))
         repo = repo.with_module(rel, tree=copy.deepcopy(_CANON_CACHE[key]))
     return repo
+
+
+def split_ifexp_assign(repo, rel: str, func_names: Iterable[str]):
+    """C7: inside the named functions, ``x = a if t else b`` (single name / attribute-path target) becomes
+    ``if t: x = a`` / ``else: x = b`` - the same evaluation order, so behaviour is unchanged; analyses that
+    enumerate paths (peval) then see the two cases as branches.  In memory only."""
+    import copy
+
+    if not rel.startswith("tornado/"):
+        rel = "tornado/" + rel
+    names = set(func_names)
+    tree = copy.deepcopy(repo.module(rel).tree)
+
+    class T(ast.NodeTransformer):
+        def visit_Assign(self, node):
+            if len(node.targets) == 1 and (isinstance(node.targets[0], ast.Name) or q.dotted(node.targets[0]) is not None) and isinstance(node.value, ast.IfExp):
+                a = ast.copy_location(ast.Assign(targets=[copy.deepcopy(node.targets[0])], value=node.value.body), node)
+                b = ast.copy_location(ast.Assign(targets=[copy.deepcopy(node.targets[0])], value=node.value.orelse), node)
+                return ast.copy_location(ast.If(test=node.value.test, body=[self.visit_Assign(a)], orelse=[self.visit_Assign(b)]), node)
+            return node
+
+    changed = False
+    for fn in ast.walk(tree):
+        if isinstance(fn, (ast.FunctionDef, ast.AsyncFunctionDef)) and fn.name in names:
+            before = ast.dump(fn)
+            T().visit(fn)
+            changed = changed or ast.dump(fn) != before
+    if not changed:
+        return repo
+    ast.fix_missing_locations(tree)
+    return repo.with_module(rel, tree=tree)
